@@ -347,4 +347,48 @@ func c01singlePost(env *core.Env) {
 			}
 		}
 	}
+	// manifest PUT addressed by digest, as a raw request: the reference is a
+	// declared digest in any registered algorithm and must agree with the body
+	nput := c.Range("nputs", 0, 4)
+	for i := 0; i < nput; i++ {
+		data := []byte(fmt.Sprintf(`{"verif":%d,"pad":%q}`, c.Int("man.uniq", 1<<20), string(c.Bytes("man.pad", c.Int("man.padlen", 30)))))
+		good := reg.Sha256(data)
+		other := append([]byte(fmt.Sprintf("not-the-content-%d:", i)), data...)
+		declared, how, matches := good, "good", true
+		switch c.Weighted("put.bad", []int{4, 2, 2, 2, 1}) {
+		case 1:
+			declared, how, matches = reg.Sha256(other), "wrong-sha256", false
+		case 2:
+			declared, how, matches = reg.Sum("sha512", other), "wrong-sha512", false
+		case 3:
+			declared, how, matches = reg.Sum("sha384", other), "wrong-sha384", false
+		case 4:
+			declared, how = reg.Sum("sha512", data), "right-sha512"
+		}
+		req := httptest.NewRequest("PUT", "/v2/"+repo+"/manifests/"+string(declared), bytes.NewReader(data))
+		req.Header.Set("Content-Type", "application/x-verif.opaque")
+		rec := httptest.NewRecorder()
+		srv.ServeHTTP(rec, req)
+		env.Op("manifest-put-by-digest:" + how + fmt.Sprint(rec.Code/100))
+		env.Logf("PUT manifests/%s (%s, %d bytes) -> %d", declared, how, len(data), rec.Code)
+		env.Sample("PUT manifest by digest %s -> %d", how, rec.Code)
+		if how == "good" && rec.Code != http.StatusCreated {
+			env.Failf("C01/manifest-put-by-digest/rejected", "manifest PUT by its own sha256 digest answered %d: %s", rec.Code, rec.Body.String())
+		}
+		if !matches && rec.Code/100 == 2 {
+			env.Failf("C01/manifest-put-by-digest/"+how+"-accepted", "manifest PUT addressed as %s, which is not the digest of the %d-byte body, answered %d", declared, len(data), rec.Code)
+		}
+		for _, d := range []ociregistry.Digest{declared, good} {
+			res := reg.Exec(ctx, client, &reg.Op{Kind: reg.GetManifest, Repo: repo, Digest: d, StopAfter: -1, ContentFault: -1}, nil)
+			if res.Err != nil {
+				if how == "good" {
+					env.Failf("C01/manifest-put-by-digest/not-retrievable", "manifest pushed by digest cannot be read: %v", res.Err)
+				}
+				continue
+			}
+			if res.ReadErr != nil || reg.Sum(strings.SplitN(string(d), ":", 2)[0], res.Data) != d {
+				env.Failf("C01/manifest-put-by-digest/wrong-content", "after a %s manifest PUT, %s serves %d bytes (read error %v) that do not hash to it", how, d, len(res.Data), res.ReadErr)
+			}
+		}
+	}
 }
